@@ -397,3 +397,58 @@ def set_difference(t):
             if len(pos) == 1 and len(neg) == 1 and unset(pos[0]) is not None and unset(neg[0]) is not None:
                 return unset(pos[0]), unset(neg[0])
     return None
+
+
+def reachable_only_from(ctx, f, root_short: str, _seen=None) -> bool:
+    """`f` is the public function `root_short` ("Class.method"), is nested in it, or is a private helper every call site of which
+    lies in such a function (transitively): a frozen exception granted to a public entry point covers exactly these - renaming,
+    extracting or inlining a private helper does not change what the entry point guarantees"""
+    seen = _seen if _seen is not None else set()
+    if short(f) == root_short:
+        return True
+    if f.qualname in seen:
+        return False
+    seen.add(f.qualname)
+    g = f.parent
+    while g is not None:
+        if short(g) == root_short:
+            return True
+        g = g.parent
+    if not f.name.startswith("_") or (f.name.startswith("__") and f.name.endswith("__")):
+        return False
+    sites = [s0 for s0 in ctx.cg.sites_calling(f) if not s0.caller.module.is_test]
+    return bool(sites) and all(reachable_only_from(ctx, s0.caller, root_short, seen) for s0 in sites)
+
+
+def _direct_call_names(f) -> set:
+    out = set()
+    for n in ast.walk(f.node):
+        if isinstance(n, ast.Call):
+            if isinstance(n.func, ast.Attribute):
+                out.add(n.func.attr)
+            elif isinstance(n.func, ast.Name):
+                out.add(n.func.id)
+    return out
+
+
+def private_anchor(ctx, class_name: str, name: str, root: str, calls=(), returns_of_root=False):
+    """The private helper `class_name.name`. Private names are free to change: when it is gone, the helper is re-found by its
+    role - the one private function (method of any class or module-level, reachable only from the public `root`
+    "Class.method") whose own statements call one of `calls`. Ambiguity or absence is an ANALYSIS-ERROR."""
+    ci = ctx.p.find_class(class_name)
+    from ..loader import mangle
+    fi = ci.methods.get(mangle(name, ci.name))
+    if fi is not None:
+        return fi
+    cands = []
+    for f in ctx.p.nontest_functions():
+        if f.is_lambda or short(f) == root or not f.name.startswith("_") or (f.name.startswith("__") and f.name.endswith("__")):
+            continue
+        if calls and not (_direct_call_names(f) & set(calls)):
+            continue
+        if reachable_only_from(ctx, f, root):
+            cands.append(f)
+    if len(cands) != 1:
+        raise AnalysisError(f"anchor method {class_name}.{name} not found ({ci.where}); by role (private, only reached from {root}, "
+                            f"calls {sorted(calls)}): {[short(c) for c in cands]}")
+    return cands[0]
